@@ -78,6 +78,27 @@ def gen_attrs(rng, sysn):
     return ps
 
 
+# Names.  The npm order compares lower-cased names, so the characters between Z and a in ASCII
+# ( [ \\ ] ^ _ ` ) must sort before the letters whatever the case of the letters.
+LETTERS = b"abcxyzABCXYZ"
+BETWEEN = b"_[]^`\\"
+PLAIN = b"abmzABMZ019-."
+NON_ASCII = ["\u00c9clair", "\u00e9clair", "\u00dcnit", "unit\u00e9", "\u03a9mega", "zo\u00eb", "Zo\u00cb"]
+
+
+def odd_names(rng):
+    """two or three names that first differ where one has a character between Z and a and the
+    others a letter (of either case)"""
+    pre = rng.choice([b"", b"", b"@s/", b"@Sc/"]) + bytes(rng.choice(PLAIN) for _ in range(rng.randrange(0, 4)))
+    suf = lambda: bytes(rng.choice(PLAIN + BETWEEN) for _ in range(rng.randrange(0, 3)))
+    out = [pre + bytes([rng.choice(BETWEEN)]) + suf(), pre + bytes([rng.choice(LETTERS)]) + suf()]
+    if rng.random() < 0.5:
+        out.append(pre + bytes([rng.choice(LETTERS)]) + suf())
+    if rng.random() < 0.2:
+        out.append(pre)
+    return out
+
+
 def gen_deps(rng, sysn, maxn):
     n = rng.choice([0, 0, 1, 2, 3, maxn])
     ds = []
@@ -85,6 +106,18 @@ def gen_deps(rng, sysn, maxn):
         s = sysn if rng.random() < 0.93 else rng.choice(cc.SYSTEMS)
         name = rng.choice(NAMES[s] + DEP_ONLY[s])
         ds.append([s, name, REQUIREMENT, rng.choice(cc.REQUIREMENTS[s]), rng.choice(DEP_TYPES)])
+    if n and rng.random() < 0.3:
+        # names over the wider alphabet, as package names and as KnownAs aliases
+        for nm in odd_names(rng):
+            ty = rng.choice([[], [], [[cc.D_OPT, b""]], [[cc.D_DEV, b""]]])
+            if rng.random() < 0.25:
+                ds.append([sysn, rng.choice(NAMES[sysn]), REQUIREMENT, rng.choice(cc.REQUIREMENTS[sysn]), ty + [[cc.D_KNOWNAS, nm]]])
+            else:
+                ds.append([sysn, nm, REQUIREMENT, rng.choice(cc.REQUIREMENTS[sysn]), ty])
+        if rng.random() < 0.03:
+            for nm in rng.sample(NON_ASCII, 2):      # strings.ToLower folds these too (oracle only)
+                ds.append([sysn, nm.encode("utf-8"), REQUIREMENT, rng.choice(cc.REQUIREMENTS[sysn]), []])
+        rng.shuffle(ds)
     return ds
 
 
@@ -94,7 +127,7 @@ def gen_long_deps(rng, sysn):
     name (alias/Alias, the same name twice)."""
     n = rng.randrange(13, 17)
     ties = rng.random() < 0.3
-    names = [b"d%02d" % i for i in range(20)] + [b"D03", b"Zz", b"@s/q"]
+    names = [b"d%02d" % i for i in range(16)] + [b"D03", b"Zz", b"@s/q", b"d_1", b"d^", b"d[0]", b"dA", b"da_", b"d`", b"_d"]
     rng.shuffle(names)
     ds = []
     for i in range(n):
